@@ -1001,25 +1001,8 @@ structure SO (lo : Nat) (w : W) : Prop where
   sb : ∀ k, ∀ s ∈ startedIds w.env.log k, s < lo
 
 theorem unique_pending_slot {pool : List WP} {k : Nat} (h : pendCount k pool ≤ 1) {p1 p2 : WP}
-    (h1 : p1 ∈ pool) (h2 : p2 ∈ pool) (hk1 : p1.hasPendingKey k = true) (hk2 : p2.hasPendingKey k = true) : p1 = p2 := by
-  induction pool with
-  | nil => cases h1
-  | cons x xs ih =>
-    simp only [pendCount, List.countP_cons] at h ih
-    cases h1 with
-    | head =>
-      cases h2 with
-      | head => rfl
-      | tail _ h2' =>
-        have : 0 < xs.countP (·.hasPendingKey k) := List.countP_pos_iff.mpr ⟨p2, h2', hk2⟩
-        simp only [hk1, if_true] at h; omega
-    | tail _ h1' =>
-      cases h2 with
-      | head =>
-        have : 0 < xs.countP (·.hasPendingKey k) := List.countP_pos_iff.mpr ⟨p1, h1', hk1⟩
-        simp only [hk2, if_true] at h; omega
-      | tail _ h2' =>
-        exact ih (by split at h <;> omega) h1' h2'
+    (h1 : p1 ∈ pool) (h2 : p2 ∈ pool) (hk1 : p1.hasPendingKey k = true) (hk2 : p2.hasPendingKey k = true) : p1 = p2 :=
+  pendCount_unique h h1 h2 hk1 hk2
 
 /-- key-persistent: a key that is booked in flight or queued on two slots — they are one slot -/
 theorem kp_one_slot_per_key {w : W} (ha : AffInv w) (hs : PoolAll SlotOk w) {p1 p2 : WP} {k : Nat}
@@ -1969,7 +1952,7 @@ theorem ti_init (c : CaseCfg) (hr : c.cfg.router = .kp) : TI 0 (init c) := by
   have hq : isFactoryQueueing c.cfg.router = false := by rw [hr]; rfl
   have hki := ki_init c hq
   have hj := j_init c
-  refine ⟨hki, hj, affInv_init c hr, Or.inr ?_⟩
+  refine ⟨hki, hj, affInv_init c (Or.inl hr), Or.inr ?_⟩
   obtain ⟨_, f2, f3, _⟩ := init_fields c
   have hlog : startsOf (init c).env.log = [] := by
     unfold init
